@@ -10,7 +10,8 @@ ENTRY = {
                 "(restart = close and reopen), comparing reply and projected state after every step; seeded random timed histories with production "
                 "parameters (5 attempts / 15 min / 30 days) and other parameter values are recorded and validated line by line by TraceRateLimit.tla / TraceAuth.tla.",
         "design_ref": "DESIGN.md section 4 C12",
-        "note": "Trusted: TLC, the abstraction functions of zz_verif_c12_test.go, testing/synctest. Handler level (httptest through the real mux and wrappers), no sockets. "
+        "note": "Open finding block-duration-overflow: initUsers wraps int64 for block_auth_min above 153722867 minutes and throttling is silently off (found through the config leg: huge block durations fed through the real initUsers). "
+                "Trusted: TLC, the abstraction functions of zz_verif_c12_test.go, testing/synctest. Handler level (httptest through the real mux and wrappers), no sockets. "
                 "'Within a minute' is read as the minute opened by the first counted failure (fixed window, as the anchors say). At the single instant where a window or a block ends "
                 "the spec admits both 'count remembered' and 'count forgotten'; whether a request prolongs a session (the code does so once a day) is left open by the spec. "
                 "'Password not evaluated' is observed as: correct password answered 429 while blocked and the table unchanged. The block does not survive a restart (not claimed by the statement, not modelled).",
